@@ -28,6 +28,18 @@ type PropCfg struct {
 	DescContains []string `json:"desc_contains,omitempty"`
 	Note         string   `json:"note,omitempty"`
 	Undecided    []string `json:"claimed_not_decided,omitempty"`
+	// Bounded: sampled conformance tests of ASSUMED (trusted) contracts of functions of the repository,
+	// run on the real code with every check; labelled bounded, never counted as proved
+	Bounded []BoundedCheck `json:"bounded,omitempty"`
+}
+
+type BoundedCheck struct {
+	Name  string `json:"name"` // obligation name reported on failure
+	Pkg   string `json:"pkg"`
+	File  string `json:"file"` // under /verif/replay
+	Run   string `json:"run"`
+	What  string `json:"what"`
+	Bound string `json:"bound"`
 }
 
 type Config struct {
@@ -484,6 +496,26 @@ func cmdCheck(args []string) int {
 	for _, u := range undecided {
 		fmt.Printf("UNDECIDED property=%s reason=%s\n", *prop, u)
 	}
+	// bounded conformance of assumed contracts of repository functions (sampled on the real code)
+	var boundedEv []map[string]interface{}
+	for _, bc := range pc.Bounded {
+		tb0 := time.Now()
+		res, text := runBounded(*verif, *repo, bc)
+		boundedEv = append(boundedEv, map[string]interface{}{"name": bc.Name, "what": bc.What, "bound": bc.Bound, "result": res,
+			"time_s": time.Since(tb0).Seconds(), "label": "bounded: sampled on the real code, not counted as proved"})
+		if res == "conforms" || res == "skipped" {
+			continue
+		}
+		violations++
+		rf := filepath.Join(replayDir, mangle(bc.Name)+".txt")
+		os.MkdirAll(replayDir, 0o755)
+		os.WriteFile(rf, []byte("failed obligation: "+bc.Name+"\nproperty: "+*prop+"\nkind: bounded conformance of an ASSUMED contract (the callers of this function are proved against that contract)\nwhat: "+bc.What+"\nbound: "+bc.Bound+"\nresult: "+res+"\n\n--- test on the real code ("+bc.File+", "+bc.Run+") ---\n"+text+"\n"), 0o644)
+		suffix := ""
+		if res != "violated" {
+			suffix = " no-failing-input-found"
+		}
+		fmt.Printf("VIOLATION property=%s replay=%s obligation=%s result=%s%s\n", *prop, rf, bc.Name, res, suffix)
+	}
 	// evidence
 	var fnKeys []string
 	for _, r := range reports {
@@ -528,6 +560,7 @@ func cmdCheck(args []string) int {
 		"int/uint are 64-bit; fixed-width unsigned arithmetic wraps exactly; signed 64-bit arithmetic is mathematical with a no-overflow obligation (unless the contract says mathint)",
 		"strings are an uninterpreted sort; only the catalogue facts about string functions are used",
 		"pointer receivers of functions under verification are non-nil",
+		"slice capacities and map sizes are at most 2^60",
 		"no goroutines/channels/select are modelled; recover blocks are ignored (a panic is a failed obligation)",
 		"interleavings are not explored: contracts are sequential; lock discipline obligations only",
 	}
@@ -560,6 +593,7 @@ func cmdCheck(args []string) int {
 			"cover_checks":             len(coverAll),
 			"unreachable_return_paths": deadPaths,
 			"cover_reachable":          len(coverSat),
+			"bounded_checks":           boundedEv,
 		},
 		"assumptions": assumptions,
 		"wall_s":      time.Since(t0).Seconds(),
@@ -695,6 +729,46 @@ func tryReplay(verif, repo, prop, name string, bad []*Obligation, sb *strings.Bu
 		}
 	}
 	return false
+}
+
+// runBounded runs a sampled conformance test of an assumed contract on the real code (overlay test).
+// Result: "conforms" (a line CONFORMS: and the test passes), "violated" (a line VIOLATED: naming the
+// failing sample), otherwise "not-run" (build failure or no verdict).
+func runBounded(verif, repo string, bc BoundedCheck) (string, string) {
+	tmp, err := os.MkdirTemp("", "gverif-bounded")
+	if err != nil {
+		return "not-run", err.Error()
+	}
+	defer os.RemoveAll(tmp)
+	target := filepath.Join(repo, bc.Pkg, "zz_verif_bounded_test.go")
+	ov, _ := json.Marshal(map[string]interface{}{"Replace": map[string]string{target: filepath.Join(verif, "replay", bc.File)}})
+	ovFile := filepath.Join(tmp, "ov.json")
+	os.WriteFile(ovFile, ov, 0o644)
+	cmd := exec.Command("go", "test", "-overlay", ovFile, "-vet=off", "-count=1", "-timeout", "120s", "-run", "^"+bc.Run+"$", "-v", "./"+bc.Pkg)
+	cmd.Dir = repo
+	cmd.Env = append(os.Environ(), "GOFLAGS=-mod=mod", "GOPROXY=off", "GOSUMDB=off", "GOTOOLCHAIN=local")
+	out, runErr := cmd.CombinedOutput()
+	text := string(out)
+	if len(text) > 6000 {
+		text = text[:6000] + "\n..."
+	}
+	conforms := false
+	for _, l := range strings.Split(text, "\n") {
+		t := strings.TrimSpace(l)
+		if strings.HasPrefix(t, "VIOLATED:") {
+			return "violated", text
+		}
+		if strings.HasPrefix(t, "CONFORMS:") {
+			conforms = true
+		}
+	}
+	if conforms && runErr == nil {
+		return "conforms", text
+	}
+	if runErr == nil && strings.Contains(text, "--- SKIP") {
+		return "skipped", text // the environment does not allow the sample (recorded in the evidence, nothing is claimed)
+	}
+	return "not-run", text
 }
 
 // matchOnly: substring match; a trailing '$' anchors at the end of the key.
